@@ -358,7 +358,7 @@ def explore_chunk(target, work, limit, carve_names, tier, cross_check=True):
                 _probe_sample(target, rep, ctx)
                 outside_paths = getattr(rep, '_outside_paths', 0) + 1
                 rep._outside_paths = outside_paths
-                if outside_paths >= 4:
+                if outside_paths >= 16:
                     break
                 work.extend(ctx.pending)
                 continue
